@@ -20,7 +20,19 @@ def tree_sig(w):
     return {p: (t[0],) if t[0] == "d" else (t[0], t[1], core.hashlib.md5(t[2]).hexdigest()) for p, t in w.items()}
 
 
-def check_failure(ctx, label, ir, op, res, before, before_img, meta, enc, ops_so_far):
+def stamps(ir, w):
+    """the raw date / time fields of every entry (what getinfo reports is derived from them)"""
+    out = {}
+    for p in w:
+        try:
+            e = ir.fs.fs.root_dir.get_entry(p)
+            out[p] = (e.crtdate, e.crttime, e.wrtdate, e.wrttime, e.lstaccessdate)
+        except Exception as ex:  # noqa
+            out[p] = ("unreadable", type(ex).__name__)
+    return out
+
+
+def check_failure(ctx, label, ir, op, res, before, before_img, meta, enc, ops_so_far, before_stamps=None):
     rep = dict(volume=meta, volume_label=label, ops=ops_so_far, failing_op=op)
     err = res[1]
     if str(err).startswith("INTERNAL"):
@@ -34,6 +46,13 @@ def check_failure(ctx, label, ir, op, res, before, before_img, meta, enc, ops_so
         d = sorted(set(after.items()) ^ set(before.items()))[:3]
         ctx.violation(f"{label}: failed {op[:2]} ({err}) changed the visible tree: {d[0][0]!r}", f"fail-tree-changed:{op[0]}:{err}", dict(rep, diff=str(d)))
         return False
+    if before_stamps is not None:
+        now = stamps(ir, after)
+        ch = sorted(p for p in now if now[p] != before_stamps.get(p))
+        if ch:
+            ctx.violation(f"{label}: failed {op[:2]} ({err}) changed the timestamps of {ch[0]!r}: {before_stamps.get(ch[0])} -> {now[ch[0]]}",
+                          f"fail-stamps-changed:{op[0]}:{err}", dict(rep, changed=ch[:5]))
+            return False
     img = ir.dev.volume()
     fnd = fatspec.fsck(img, before_img, enc, force_ft=history.force_ft(meta))
     if fnd:
@@ -136,13 +155,19 @@ def run(ctx):
                     ["remove", "/D"], ["removedir", "/D"], ["removedir", "/D/keep.txt"], ["remove", "/missing"], ["create", "/D"], ["makedir", "/D/keep.txt"],
                     ["setinfo", "/D/keep.txt", None, 100, None, None, (1970, 1, 1, 0, 1, 40), None],
                     ["setinfo", "/D/keep.txt", 4386182400 + 86400 * 400, None, None, (2110, 1, 1, 0, 0, 0), None, None],
+                    # several fields in one call, a LATER one out of range: the earlier ones must not be taken over (C09-m4)
+                    ["setinfo", "/D/keep.txt", 1286668800, 1286668800, 170000000, (2010, 10, 10, 0, 0, 0), (2010, 10, 10, 0, 0, 0), (1975, 5, 22, 0, 0, 0)],
+                    ["setinfo", "/D/keep.txt", 1286668800, 4386182400 + 86400 * 400, None, (2010, 10, 10, 0, 0, 0), (2110, 1, 1, 0, 0, 0), None],
                     ["removetree", "/D/keep.txt"], ["listdir", "/D/keep.txt"], ["listdir", "/nodir"], ["open", "r1", "/D", "r"], ["open", "r2", "/none", "r"],
                     ["open", "x1", "/D/keep.txt", "x"],
                 ]
                 rng.shuffle(cand)
+                cand.sort(key=lambda o: 0 if (o[0] == "setinfo" and sum(x is not None for x in o[2:5]) > 1) else 1)     # the mixed setinfo calls always run
                 for op in cand[:ctx.scale(14, 26)]:
                     ctx.evaluations += 1
-                    before = tree_sig(ir.walk())
+                    w0 = ir.walk()
+                    before = tree_sig(w0)
+                    before_st = stamps(ir, w0)
                     before_img = ir.dev.volume()
                     clk.t = clock_tuple(len(done) + 1)
                     r, _ = ir.op(op)
@@ -170,7 +195,7 @@ def run(ctx):
                     if r[0] == "err":
                         if op[0] not in ("listdir",):
                             ctx.nontrivial.add((label, op[0], str(r[1]), free))
-                        ok = check_failure(ctx, label, ir, op, r, before, before_img, meta, enc, shown)
+                        ok = check_failure(ctx, label, ir, op, r, before, before_img, meta, enc, shown, before_st)
                         if not ok:
                             break
                     for wop, r2 in extra:
